@@ -861,8 +861,10 @@ func (x *Run) prepareUse(ctx *useCtx, con *Contract, st *State) {
 			// lookups) - dereferencing it is an obligation, not an assumption
 			if len(ctx.results.Tup) > 0 {
 				ctx.results.Tup[0].MaybeNil = true
+				ctx.results.Tup[0].NilIface = ctx.results.Tup[0].S == SIface
 			} else {
 				ctx.results.MaybeNil = true
+				ctx.results.NilIface = ctx.results.S == SIface
 			}
 		}
 	} else {
